@@ -177,6 +177,8 @@ def fill_facts(tier, seed_):
                 entries, overlong = [], []
                 for (template, fdf, outpdf, argv) in fake.fills:
                     fname = os.path.basename(outpdf)[:-4]
+                    if fname not in solver.forms:
+                        continue          # an output that is not named after a form of the solution: Fill.tla rejects the `filled` list
                     fobj = solver.forms[fname]
                     got = {}
                     for e in split_entries(fdf):
@@ -360,6 +362,10 @@ def roundtrip_records(year, solver, work, tag, values_out, years_out, meta):
         ty, orig = canon(v, tname)
         present = name in back
         _ty, bk = canon(back[name], tname) if present else (ty, orig)
+        if present and tname == "EnumField" and back[name] is not None:
+            reader = filler._field_map.get(name)
+            if reader is not None and not isinstance(back[name], reader.enum()):
+                bk = bk + " (not a member of the reading line's own enumeration)"
         values_out.append({"rid": len(values_out) + 1, "type": ty, "orig": orig, "back": bk, "present": present, "name": name, "tag": tag})
 
 
